@@ -152,7 +152,11 @@ class CollectFootnotes(Transform):
             footnotes
             and getattr(self.document, "myst_footnote_transition", True)
             # avoid warning: Document or section may not begin with a transition
-            and not all(isinstance(c, nodes.footnote) for c in self.document.children)
+            # (also when only the promoted document title/subtitle precede it)
+            and not all(
+                isinstance(c, nodes.footnote | nodes.title | nodes.subtitle)
+                for c in self.document.children
+            )
             # avoid error: At least one body element must separate transitions
             and not self._ends_with_transition()
         ):
